@@ -117,3 +117,33 @@ Proof.
   { destruct (mx <? 1) eqn:E1; [apply Z.ltb_lt in E1|apply Z.ltb_ge in E1]; lia. }
   rewrite Hmx in *. split; [reflexivity|exact B1].
 Qed.
+
+(* put evicts only what the limit forces it to: afterwards the cache holds the new entry plus as
+   many of the other old entries as fit *)
+Lemma length_aremove_has : forall l k,
+  Z.of_nat (length (aremove l k)) = Z.of_nat (length l) - (match afind l k with Some _ => 1 | None => 0 end).
+Proof.
+  induction l as [|e l IH]; intros k; cbn; [reflexivity|].
+  destruct (e_key e =? k); cbn [length]; [lia|]. rewrite Nat2Z.inj_succ, IH. lia.
+Qed.
+
+Lemma lru_put_size_l : forall m t0 its g w key v ds r w',
+  mono its -> lru_reach m t0 its g w -> nonneg ds ->
+  wstep lru_step (Call (Put key v) ds) w = Ok (Some r, w') ->
+  zlen (l_dict (fst w')) =
+  Z.min (l_max (fst w)) (zlen (l_dict (fst w)) - (if has (fst w) key then 1 else 0) + 1).
+Proof.
+  intros m t0 its g [c t] key v ds r [c1 t1] Hm Hr Hn E.
+  destruct (reach_inv _ _ _ _ _ Hm Hr) as [a [zs [HR [HB [HJ [HC [HS HK]]]]]]]. cbn [fst snd] in *.
+  destruct (linv_call (Put key v) ds c t g a zs HR HB HJ HC HS HK Hn) as [c' [zs' [E' [HR' _]]]].
+  assert (L1 : length (l_dict c') = length (a_list (snd (fst (alru_step (Put key v) a (mkClk t ds)))))).
+  { rewrite (R_len _ _ _ HR'), (R_list _ _ _ HR'), map_length. reflexivity. }
+  assert (L0 : length (l_dict c) = length (a_list a)).
+  { rewrite (R_len _ _ _ HR), (R_list _ _ _ HR), map_length. reflexivity. }
+  cbn [wstep fst snd] in E. rewrite E' in E. injection E as _ Ec _. subst c1.
+  unfold zlen. rewrite L1, L0, (R_max _ _ _ HR).
+  rewrite (has_R _ _ _ key HR). unfold ahas.
+  rewrite put_length. pose proof (length_aremove_has (a_list a) key) as L.
+  destruct HB as [B1 B2]. unfold zlen in B1.
+  destruct (afind (a_list a) key); lia.
+Qed.
